@@ -432,4 +432,43 @@ pub proof fn lemma_ser32_8(out: Seq<u8>, w: Seq<u32>)
     assert(out =~= r);
 }
 
+/// little-endian value of the 4 bytes at offset 4k
+pub open spec fn le4_at(out: Seq<u8>, k: int) -> nat {
+    out[4 * k] as nat + 0x100 * (out[4 * k + 1] as nat) + 0x1_0000 * (out[4 * k + 2] as nat) + 0x100_0000 * (out[4 * k + 3] as nat)
+}
+
+/// pointwise form of `le_nat` on 4 bytes (broadcast: instantiated on the results of `shim_u32_to_le_bytes`)
+pub broadcast proof fn lemma_le_nat_4_pointwise(s: Seq<u8>)
+    requires
+        s.len() == 4,
+    ensures
+        #[trigger] le_nat(s) == le4_at(s, 0),
+{
+    lemma_le_nat_4(s);
+}
+
+/// pointwise form of lemma_ser32_8
+pub proof fn lemma_ser32_8_pointwise(out: Seq<u8>, w: Seq<u32>)
+    requires
+        out.len() == 32,
+        w.len() == 8,
+        le4_at(out, 0) == w[0] as nat,
+        le4_at(out, 1) == w[1] as nat,
+        le4_at(out, 2) == w[2] as nat,
+        le4_at(out, 3) == w[3] as nat,
+        le4_at(out, 4) == w[4] as nat,
+        le4_at(out, 5) == w[5] as nat,
+        le4_at(out, 6) == w[6] as nat,
+        le4_at(out, 7) == w[7] as nat,
+    ensures
+        out == ser32(w),
+{
+    assert forall|k: int| 0 <= k < 8 implies le_nat(#[trigger] out.subrange(4 * k, 4 * k + 4)) == w[k] as nat by {
+        let c = out.subrange(4 * k, 4 * k + 4);
+        lemma_le_nat_4(c);
+        assert(le_nat(c) == le4_at(out, k));
+    }
+    lemma_ser32_8(out, w);
+}
+
 } // verus!
